@@ -264,3 +264,5 @@ _add("C17", "note", "Known gap: --acl-safe runs (completion of the safe config) 
 _add("C03", "note", "Known gap: %multiline rules (a vendor diff logic) are outside the catalogue.")
 _add("C13", "text", "The production path annet.gen._old_new_per_device is driven for a file device with a real JSONFragment generator, the device's document downloaded, with and without --acl-safe and --filter-acl (judged as a merge, or as the filter applied to the merge). Documents hold string scalars.")
 _add("C13", "note", "Third-party known findings (jsonpatch cross-container move; array elements differing only in JSON type).", replace="Known gap: --acl-safe together with --filter-acl through annet.gen._old_new_per_device's file branch is not driven.")
+_add("C08", "text", "Every fifth ordered configuration is what the production worker of annet gen (annet.gen.worker) prints, read back.")
+_add("C16", "text", "What the production worker of annet patch prints (res_diff_patch / _patch_worker) is compared with device mode on the same pair.")
